@@ -23,6 +23,9 @@ pub enum FnBody {
     TernaryAssign(Vec<String>),
     /// use of function-like macro number .0 of the case: `v<d> = NAME(v<x>, v<y>);`
     MacroUse(usize, usize, usize, usize),
+    /// the same literal text several times in one expression, once inside a nested call:
+    /// `l3("w", lw("w"), "w");`
+    SameThrice(String),
 }
 
 #[derive(Debug, Clone, Serialize, Deserialize, PartialEq)]
@@ -111,6 +114,7 @@ pub fn gen_case(g: &mut G) -> Case {
         let nb = 1 + g.below(4);
         for _ in 0..nb {
             body.push(match g.below(10) {
+                5 | 7 if g.chance(1, 3) => FnBody::SameThrice(WORDS[g.below(10)].to_string()),
                 0..=2 if i > 0 => {
                     // a callee taking pointers: any earlier function with >= 2 params, else a plain call
                     let cands: Vec<usize> = (0..i).filter(|k| funs[*k].nparams >= 2 && !funs[*k].interrupt).collect();
@@ -189,6 +193,9 @@ pub fn source_shifted(c: &Case, shift: u8) -> String {
         }
     }
     s.push_str("char *gp;\n");
+    if c.funs.iter().any(|f| f.body.iter().any(|b| matches!(b, FnBody::SameThrice(_)))) {
+        s.push_str("char lw(char *q) { return 0; }\nvoid l3(char *a, char c, char *b) { gp = a; gp = b; }\n");
+    }
     for (i, t) in c.tables.iter().enumerate() {
         let l: Vec<String> = t.iter().map(|w| format!("\"{}\"", w)).collect();
         s.push_str(&format!("const char *tab{}[] = {{{}}};\n", i, l.join(", ")));
@@ -223,6 +230,7 @@ pub fn source_shifted(c: &Case, shift: u8) -> String {
                 FnBody::Call(k) => s.push_str(&format!("  {}();\n", c.funs[*k].name)),
                 FnBody::PtrAssign(w) => s.push_str(&format!("  gp = \"{}\";\n", w)),
                 FnBody::Warn => s.push_str("  X = 300;\n"),
+                FnBody::SameThrice(w) => s.push_str(&format!("  l3(\"{}\", lw(\"{}\"), \"{}\");\n", w, w, w)),
                 FnBody::MacroUse(k, d, x, y) => {
                     let scalar = |v: usize| {
                         let v = v % c.nvars;
@@ -404,7 +412,7 @@ pub fn check(case: &Case, st: &mut Stats, in_process: usize, processes: usize) -
             return Err(format!("C05-fresh-process: a fresh process disagrees with this process: {}", first_diff(&first, o)));
         }
     }
-    let lit_expr = case.funs.iter().any(|f| f.body.iter().any(|b| matches!(b, FnBody::LiteralCall { lits, .. } if lits.len() >= 2) || matches!(b, FnBody::LocalInit(_) | FnBody::TernaryAssign(_))));
+    let lit_expr = case.funs.iter().any(|f| f.body.iter().any(|b| matches!(b, FnBody::LiteralCall { lits, .. } if lits.len() >= 2) || matches!(b, FnBody::LocalInit(_) | FnBody::TernaryAssign(_) | FnBody::SameThrice(_))));
     if case.funs.iter().any(|f| f.body.iter().any(|b| matches!(b, FnBody::LocalInit(_)))) {
         st.count("label:several-literals-in-a-local-initialiser");
     }
